@@ -1,6 +1,9 @@
 (* C06 correspondence: minicbor(-derive) encodes the value to exactly the bytes the schema
-   codec produces, and the schema decoder reads them back. *)
-From PV Require Import Lib.Base Cbor.Item Cbor.Dec C06.Model C06.MapStruct C06.Schemas.
+   codec produces, and the schema decoder reads them back. The schema is looked up by the
+   Rust type's name among the GENERATED schemas (and the four test schemas). *)
+From Coq Require String.
+From PV Require Import Lib.Base Cbor.Item Cbor.Dec C06.Model C06.Schemas.
+From PV Require Generated.Schemas.
 Open Scope Z_scope.
 
 Fixpoint value_eqb (a b : value) : bool :=
@@ -13,6 +16,8 @@ Fixpoint value_eqb (a b : value) : bool :=
   match a, b with
   | VInt x, VInt y => x =? y
   | VBytes x, VBytes y => list_eqb Z.eqb x y
+  | VText x, VText y => list_eqb Z.eqb x y
+  | VRaw x, VRaw y => list_eqb Z.eqb x y
   | VBool x, VBool y => Bool.eqb x y
   | VNone, VNone => true
   | VSome x, VSome y => value_eqb x y
@@ -22,24 +27,23 @@ Fixpoint value_eqb (a b : value) : bool :=
   | _, _ => false
   end.
 
-(* schema id, value, the bytes minicbor::to_vec produced, whether minicbor::decode of those
+(* type name, value, the bytes minicbor::to_vec produced, whether minicbor::decode of those
    bytes gave back an equal value *)
-Inductive case : Type :=
-| CSchema (sid : Z) (v : value) (bytes : list Z) (rt : bool)
-| CMapSchema (mid : Z) (v : value) (bytes : list Z) (rt : bool).
+Inductive case : Type := CGen (name : String.string) (v : value) (bytes : list Z) (rt : bool).
 
-Definition case_codec (c : case) : codec :=
-  match c with CSchema sid _ _ _ => codec_of (schema_of sid) | CMapSchema mid _ _ _ => map_codec (mschema_of mid) end.
-Definition case_parts (c : case) : value * list Z * bool :=
-  match c with CSchema _ v b rt | CMapSchema _ v b rt => (v, b, rt) end.
+Definition schema_named (name : String.string) : schema :=
+  match lookup_schema name (Generated.Schemas.all_schemas ++ test_schemas) with
+  | Some s => s
+  | None => SIndexOnly []          (* unknown name: nothing encodes to it, the case fails *)
+  end.
 
 Definition case_out (c : case) : list Z * option value :=
-  let '(v, _, _) := case_parts c in
-  let k := case_codec c in
-  (c_enc k v, match c_dec k (c_enc k v) with DOk (x, _) => Some x | _ => None end).
+  let '(CGen name v _ _) := c in
+  let s := schema_named name in
+  (enc_schema s v, match dec_schema s (enc_schema s v) with DOk (x, _) => Some x | _ => None end).
 
 Definition case_ok (c : case) : bool :=
-  let '(v, bytes, rt) := case_parts c in
-  let k := case_codec c in
-  list_eqb Z.eqb (c_enc k v) bytes && rt &&
-  match c_dec k bytes with DOk (x, r) => value_eqb x v && match r with [] => true | _ => false end | _ => false end.
+  let '(CGen name v bytes rt) := c in
+  let s := schema_named name in
+  list_eqb Z.eqb (enc_schema s v) bytes && rt &&
+  match dec_schema s bytes with DOk (x, r) => value_eqb x v && match r with [] => true | _ => false end | _ => false end.
